@@ -25,9 +25,10 @@ def jobs(tier, ctx):
             # quick: every in-range position and concrete out-of-range probes (boundary, 32-bit truncation); thorough: the two
             # symbolic out-of-range classes, which together with the positions cover all of int64 (200..400 s, 11 GB each)
             probes = [('i%s' % str(k).replace('-', 'm'), ['NUMK0=%dLL' % k]) for k in (-1, ln, ln + 1, 4294967296, 4294967296 + ln - 1, -4294967296, 9223372036854775807)]
-            for (tag, d) in ([c for c in vm.index_classes(ln, rev) if c[0].startswith('pos')] + probes if tier == 'quick' else vm.index_classes(ln, rev) + probes[:2]):
+            # (the symbolic classes need up to 14 GB: thorough runs them for lengths 0 and 2 only, two at a time)
+            for (tag, d) in ([c for c in vm.index_classes(ln, rev) if c[0].startswith('pos')] + probes if (tier == 'quick' or ln in (1, 3)) else vm.index_classes(ln, rev) + probes[:2]):
                 j = vm.step_job(ctx, 'indexref', op, ['NUM', 'ARRM'], oracle=['INDEXREF'], extra_defs=['LENK1=%d' % ln, 'INDEXREF_REVERSE=%d' % rev] + d, tag='len%d.%s' % (ln, tag), typed_arrays=8,
-                                mem=(11 if tag in ('below', 'above') else 4), timeout=(1500 if tag in ('below', 'above') else 300))
+                                mem=(20 if tag in ('below', 'above') else 4), timeout=(1500 if tag in ('below', 'above') else 300))
                 if j:
                     j['opt_witness'] = j['opt_witness'] + ['index_in_range', 'index_out_of_range']
                     out.append(j)
